@@ -96,7 +96,7 @@ theorem single_fork_bystander (c : Cl) (S : List Ev) (l : List Ev) (nx : Nat)
     rcases hmin (key e) (List.mem_map.mpr ⟨e, he, rfl⟩) with x | x
     · exact Or.inl (hSs.inj e (hl e he) w hwS (Or.inr (x.symm.trans hwk.symm)))
     · exact Or.inr (by rw [hwk]; exact x)
-  · rw [hcf.g]; exact (childG_facts c hb w (hSs.sib w hwS)).1
+  · rw [hcf.g]; exact (childG_facts c hb w (hSs.sib w hwS).com).1
   · intro e he hne'
     have hk : key e ≠ ka := fun x => hne' (hSs.inj e (hl e he) w hwS (Or.inr (x.trans hwk.symm)))
     obtain ⟨r, hr', hbr⟩ := hrel.blk e (hl e he) (hblk (key e) (List.mem_map.mpr ⟨e, he, rfl⟩) hk)
@@ -201,5 +201,136 @@ example : ([cA, cC, cA, cB].foldl (fun c e => (deliver c e 0).1) (by0 5)).g.path
     ([cA, cC, cA, cB].foldl (fun c e => (deliver c e 0).1) (by0 5)).g.name = 4 ∧
     (getRec ([cA, cC, cA, cB].foldl (fun c e => (deliver c e 0).1) (by0 5)) 1).map (·.state) = some 4 ∧
     (getRec ([cA, cC, cA, cB].foldl (fun c e => (deliver c e 0).1) (by0 5)) 3).map (·.state) = some 4 := by decide
+
+/-! ### the committer: its own staged commit among the siblings, applied on relay echo
+
+  The client has staged a commit `o` (pending, record ProcessedCommit of the parent epoch — exactly
+  what `stageCommit` leaves, `stage_own_commit`) and applies it when the relay echoes it, like any
+  other sibling.  The echo takes the snapshot BEFORE merging the pending commit, so the saved state
+  still holds the pending commit: after a rollback it is back and a later echo can merge it.  A
+  foreign sibling applied first clears the pending commit (openmls merges over it); the snapshot
+  taken then holds it too.  The own commit is never recorded Failed: offered while a better sibling
+  is applied it is answered from its record and nothing changes.  The other way of applying one's
+  own commit — `merge_pending_commit` at once, which takes NO snapshot — is the excluded case:
+  `Props.C01.witness_immediate_merge` / `single_fork_full_false` (finding
+  `immediate-merge-no-snapshot`). -/
+
+structure OwnCommit (c : Cl) (o : Ev) : Prop where
+  path : o.path = c.g.path
+  kind : ∃ b sw, o.kind = .commit b sw
+  own : o.sender = c.id
+  ts : o.ts ≠ 0
+  pending : c.g.pending = some o
+  record : getRec c o.n = some { state := 2, epoch := some (epochOf c.g.path), hasGroup := true, mid := none }
+
+theorem secretsOK_ensure (g : GState) (h : SecretsOK g) : SecretsOK (ensureSecret g) := by
+  unfold ensureSecret
+  split
+  · exact h
+  · intro ep q hq
+    simp only at hq ⊢
+    by_cases c : ep = epochOf g.path
+    · subst c
+      rw [Store.alookup_ainsert_self] at hq
+      cases hq
+      exact ⟨rfl, List.prefix_refl _⟩
+    · rw [Store.alookup_ainsert_ne _ _ _ _ c] at hq
+      exact h ep q hq
+
+/-- `self_update` / `update_group_data` (stage + publish) establishes the committer's hypotheses -/
+theorem stage_own_commit (c : Cl) (n ts idn : Nat) (b : Body) (na : Bool) (o : Ev)
+    (hts : ts ≠ 0) (hsec : SecretsOK c.g) (hm : NoForkSnapshot c)
+    (h : (stageCommit c n ts idn b na).2 = .ev o) :
+    OwnCommit (stageCommit c n ts idn b na).1 o ∧ SecretsOK (stageCommit c n ts idn b na).1.g ∧
+    NoForkSnapshot (stageCommit c n ts idn b na).1 ∧ (stageCommit c n ts idn b na).1.g.path = c.g.path := by
+  unfold stageCommit at h ⊢
+  split at h
+  · cases h
+  · split at h
+    · cases h
+    · split at h
+      · cases h
+      · rename_i h1 h2 h3
+        simp only [h1, h2, h3, if_false, Bool.false_eq_true] at h ⊢
+        cases h
+        refine ⟨⟨by simp [setRec], ⟨b, _, rfl⟩, rfl, hts, by simp [setRec], ?_⟩, ?_, ?_, by simp [setRec]⟩
+        · simp [setRec, getRec, Store.alookup_ainsert_self]
+        · intro ep q hq
+          have := secretsOK_ensure c.g hsec ep q (by simpa [setRec] using hq)
+          simpa [setRec] using this
+        · intro s hs
+          have := hm s (by simpa [setRec] using hs)
+          simpa [setRec] using this
+
+theorem sibs2_of (c : Cl) (o : Ev) (S : List Ev) (ho : OwnCommit c o) (h : Siblings c S)
+    (hd : ∀ e ∈ S, e.n ≠ o.n ∧ (e.ts, e.idnum) ≠ (o.ts, o.idnum)) : Sibs2 c o S where
+  own := ⟨ho.path, ho.kind, by simp [ho.own], ho.ts, ho.pending, ho.record⟩
+  sib := (sibs_of c S h).sib
+  inj := by
+    intro e1 h1 e2 h2 hk
+    rcases List.mem_cons.mp h1 with rfl | h1' <;> rcases List.mem_cons.mp h2 with rfl | h2'
+    · rfl
+    · obtain ⟨a, b⟩ := hd e2 h2'
+      rcases hk with y | y
+      · exact absurd y.symm a
+      · exact absurd y.symm b
+    · obtain ⟨a, b⟩ := hd e1 h1'
+      rcases hk with y | y
+      · exact absurd y a
+      · exact absurd y b
+    · exact (sibs_of c S h).inj e1 h1' e2 h2' hk
+  norec := h.unseen
+
+/-- **single_fork (committer, own commit applied on echo)**: for every delivery list over the own
+    commit and the foreign siblings — any order, any repetition — the client ends on the MIP-03
+    minimum `w` of the delivered ones, with `w`'s group state (no pending commit left), `w`'s record
+    ProcessedCommit, and every other delivered FOREIGN sibling blocked -/
+theorem single_fork_committer (c : Cl) (o : Ev) (S : List Ev) (l : List Ev) (nx : Nat)
+    (hg : c.hasGroup = true) (hr : 1 ≤ c.retention) (hsec : SecretsOK c.g) (hm : NoForkSnapshot c)
+    (ho : OwnCommit c o) (hS : Siblings c S)
+    (hd : ∀ e ∈ S, e.n ≠ o.n ∧ (e.ts, e.idnum) ≠ (o.ts, o.idnum))
+    (hl : ∀ e ∈ l, e ∈ o :: S) (hne : l ≠ []) :
+    ∃ w ∈ l, (∀ e ∈ l, e = w ∨ klt (key w) (key e) = true) ∧
+      (l.foldl (fun c e => (deliver c e nx).1) c).g.path = c.g.path ++ [w.n] ∧
+      (l.foldl (fun c e => (deliver c e nx).1) c).g = childG c w ∧
+      (l.foldl (fun c e => (deliver c e nx).1) c).g.pending = none ∧
+      (getRec (l.foldl (fun c e => (deliver c e nx).1) c) w.n).map (·.state) = some 2 ∧
+      ∀ e ∈ l, e ≠ w → e ≠ o → ∃ r, getRec (l.foldl (fun c e => (deliver c e nx).1) c) e.n = some r ∧ (r.state = 3 ∨ r.state = 4) := by
+  have hb := base_of c hg hr hsec hm
+  have hSs := sibs2_of c o S ho hS hd
+  have hrel := rel2_run c hb o S hSs nx l c ⟨none, []⟩ (rel2_init c hb o S hSs) (by simp [FInv]) hl
+  obtain ⟨ka, hka, hap, hmin, hblk⟩ := single_fork2 (key o) (l.map key) (by simpa using hne)
+  obtain ⟨w, hwT, hwk, hcf, hrw⟩ := hrel.chi ka hap
+  obtain ⟨e0, he0, hk0⟩ := List.mem_map.mp hka
+  have hw : w ∈ l := by
+    have : e0 = w := hSs.inj e0 (hl e0 he0) w hwT (Or.inr (hk0.trans hwk.symm))
+    rw [← this]; exact he0
+  obtain ⟨bw, sww, hkw⟩ := (hSs.com w hwT).kind
+  refine ⟨w, hw, ?_, ?_, hcf.g, by rw [hcf.g]; exact (childG_data c w bw sww hkw).2.2.1, by rw [hrw]; rfl, ?_⟩
+  · intro e he
+    rcases hmin (key e) (List.mem_map.mpr ⟨e, he, rfl⟩) with x | x
+    · exact Or.inl (hSs.inj e (hl e he) w hwT (Or.inr (x.symm.trans hwk.symm)))
+    · exact Or.inr (by rw [hwk]; exact x)
+  · rw [hcf.g]; exact (childG_facts c hb w (hSs.com w hwT)).1
+  · intro e he hne' hno
+    have hk : key e ≠ ka := fun x => hne' (hSs.inj e (hl e he) w hwT (Or.inr (x.trans hwk.symm)))
+    have hko : key e ≠ key o := fun x => hno (hSs.inj e (hl e he) o List.mem_cons_self (Or.inr x))
+    obtain ⟨r, hr', hbr⟩ := hrel.blk e (hl e he) (hblk (key e) (List.mem_map.mpr ⟨e, he, rfl⟩) hk hko)
+    exact ⟨r, hr', hbr.1⟩
+
+/-- non-vacuity: client 1 stages a self-update (ts 20), two foreign siblings B (ts 19, id 9) and
+    C (ts 19, id 11); every order — own echo first, last, or in between, with repetitions — ends on B -/
+def com0 : Cl := initCl 1 false 5 [0, 1, 2] [0, 1] 1
+def own1 : Ev := { n := 1, ts := 20, idnum := 7, cipher := 1, sender := 1, path := [], kind := .commit .selfUpdate [] }
+def comS : Cl := (stageCommit com0 1 20 7 .selfUpdate false).1
+
+example : (stageCommit com0 1 20 7 .selfUpdate false).2 = .ev own1 := by decide
+
+example : ([own1, cC, own1, cB].foldl (fun c e => (deliver c e 0).1) comS).g.path = [2] ∧
+    ([cC, own1, cB, own1].foldl (fun c e => (deliver c e 0).1) comS).g.path = [2] ∧
+    ([cB, own1, cC].foldl (fun c e => (deliver c e 0).1) comS).g.path = [2] ∧
+    ([cC, own1].foldl (fun c e => (deliver c e 0).1) comS).g.path = [3] ∧
+    ([own1, own1].foldl (fun c e => (deliver c e 0).1) comS).g.path = [1] ∧
+    ([own1, cC, own1, cB].foldl (fun c e => (deliver c e 0).1) comS).g.pending = none := by decide
 
 end MdkVerif.Props.C01Fork
